@@ -6,7 +6,8 @@ import sys
 
 VERIF = os.path.dirname(os.path.dirname(os.path.abspath(__file__)))
 sys.path.insert(0, VERIF)
-from sa.manifest_table import CLAIMS, NOT_APPLICABLE  # noqa: E402
+import importlib  # noqa: E402
+from sa.manifest_table import NOT_APPLICABLE, TRUST  # noqa: E402
 
 props = [json.loads(l) for l in open(os.path.join(VERIF, "properties.jsonl"))]
 checks = []
@@ -14,8 +15,8 @@ na = []
 for p in props:
     pid = p["id"]
     has_rule = os.path.exists(os.path.join(VERIF, "sa", "rules", pid + ".py"))
-    if pid in CLAIMS and has_rule:
-        c = CLAIMS[pid]
+    c = getattr(importlib.import_module("sa.rules." + pid), "CLAIM", None) if has_rule else None
+    if c is not None:
         checks.append({
             "property_id": pid,
             "quick_cmd": "./check %s --tier quick" % pid,
@@ -24,7 +25,7 @@ for p in props:
             "replay_cmd_template": "cat {path}",
             "engine": "sa",
             "level_claimed": {"category": c.get("category", "other"), "text": c["text"], "design_ref": c["ref"]},
-            "level_note": c["note"],
+            "level_note": c["note"] + " " + TRUST,
             "technique": c["technique"],
         })
     elif pid in NOT_APPLICABLE:
